@@ -586,3 +586,45 @@ def c05_two_directives(a: Optional[int], b: Optional[int]) -> bool:
         if gn != wn or not eqv(ga, wa):
             return verdict(False)
     return verdict(True)
+
+
+# ---- the same variable name and type declared by different operations with different defaults: what one operation declared never shows in another -----
+HIST = [
+    ("query A($n: Int = 5) { p_i(x: $n) sib }", {}), ("query B($n: Int = 9) { p_i(x: $n) sib }", {}), ("query C($n: Int) { p_i(x: $n) sib }", {}),
+    ("query D($n: Int = null) { p_i(x: $n) sib }", {}), ("query E($ns: [Int]) { p_dli(x: $ns) sib }", {}), ("query F($ns: [Int] = [3]) { p_dli(x: $ns) sib }", {}),
+    ("query G($n: Int = 5) { p_i(x: $n) sib }", {"n": 1}), ("query H($n: Int! = 4) { p_ni(x: $n) sib }", {}), ("query I($n: Int!) { p_ni(x: $n) sib }", {"n": 2}),
+]
+
+
+def _expected_args(q, variables):
+    ast = gqlfront.parse(q)
+    op = ast["definitions"][0]
+    vardefs = [(vd["variable"]["name"]["value"], tref_of(vd["type"]), vd["defaultValue"]) for vd in op["variableDefinitions"] or []]
+    cv = C.coerce_variables(MODEL, vardefs, variables)
+    sel = op["selectionSet"]["selections"][0]
+    f = sel["name"]["value"]
+    return f, C.coerce_arguments(MODEL, MODEL["types"]["Query"]["fields"][f]["args"], sel["arguments"], cv)
+
+
+@obligation(tier="quick", timeout=60, shards=[{"first": a, "second": b} for a in range(len(HIST)) for b in range(len(HIST))],
+            quick_shards=[i for i, (a, b) in enumerate((a, b) for a in range(len(HIST)) for b in range(len(HIST))) if (a, b) in ((0, 1), (0, 2), (1, 0), (2, 0), (5, 4), (4, 5), (0, 3), (6, 2), (7, 8), (0, 0), (3, 2), (7, 2))],
+            samples=[{"k": 0}],
+            selectors=["shard: first and second request (9 operations declaring $n / $ns with different or no defaults) — one fresh process per ordered pair", "k: unused"],
+            bounds="every ordered pair of 9 operations on one engine",
+            note="an operation's variable default (or the absence of one) is its own: the arguments delivered for the second request equal the reference result for THAT operation, whatever an earlier "
+                 "operation with the same variable name and type declared")
+def c05_history(k: int) -> bool:
+    """
+    post: _
+    """
+    for i in (shard()["first"], shard()["second"]):
+        q, variables = HIST[i]
+        with NoTracing():
+            f, exp = _expected_args(q, variables)
+        del LOG[:]; del DLOG[:]
+        ok, r = safe(lambda: env.run(ENG.execute(q, variables=dict(variables))))
+        got = [a for name, a in LOG if name == f]
+        observe(q, r, got, ("expected", exp))
+        if not ok or r.get("errors") or len(got) != 1 or not eqv(got[0], exp):
+            return verdict(False)
+    return verdict(True)
